@@ -2,33 +2,10 @@
 C12 — a thread's own step preserves its invariant and satisfies the side conditions of its action; the
 system invariant `Inv` is inductive (any number of threads, any schedule).
 -/
-import TbbVerif.Proofs.C12.Contig
+import TbbVerif.Proofs.C12.CasListCount
 
 namespace TbbVerif.C12
 open CasList
-
-/-- everything one step has to establish -/
-structure StepOk (rule : Key → Rule) (L : LSt) (t : Tid) (o : Out) : Prop where
-  act : ActOk rule L t o.act
-  tinv : TInv rule (L.apply o.act) t o.th
-  res : ∀ r, o.res = some r → ResOk (L.apply o.act) t r
-  wins : (L.apply o.act).wins = (addLog [] t o.res).filterMap succNode ++ L.wins
-
-theorem linked_some {rule} {L : LSt} (g : Good rule L) {p c : Node} (hp : p ∈ L.chain) (h : L.next p = some c) :
-    ∃ r, aft p L.chain = c :: r := by
-  have := g.linked p hp
-  rw [h] at this
-  cases hh : aft p L.chain with
-  | nil => simp [hh] at this
-  | cons y ys => simp [hh] at this; exact ⟨ys, by rw [this]⟩
-
-theorem linked_none {rule} {L : LSt} (g : Good rule L) {p : Node} (hp : p ∈ L.chain) (h : L.next p = none) :
-    aft p L.chain = [] := by
-  have := g.linked p hp
-  rw [h] at this
-  cases hh : aft p L.chain with
-  | nil => rfl
-  | cons y ys => simp [hh] at this
 
 /-- the conditions that keep equivalent keys contiguous, from what the inserting thread knows at its CAS -/
 theorem link_contig_of {rule} {L : LSt} {t : Tid} {k : Key} {prev new : Node} {curr : Option Node} (g : Good rule L)
@@ -140,6 +117,17 @@ theorem step_idle {rule} {L : LSt} {t : Tid} {th : Th} (g : Good rule L) (hpc : 
       rcases List.mem_cons.mp hx with h | h
       · exact Or.inl (by simp [h])
       · exact Or.inr h
+  · rename_i k start rest hops
+    split
+    · rename_i hv
+      simp only [validFind, Bool.and_eq_true, decide_eq_true_eq] at hv
+      refine ⟨trivial, ?_, by simp, by simp [LSt.apply, addLog]⟩
+      simp only [TInv, LSt.apply]
+      refine ⟨⟨g.nodup, fun x hx => hx⟩, hv.1, ?_⟩
+      intro x hx hs
+      have hlt : (L.key start).ok < (L.key x).ok := by rw [same_ok hs]; exact hv.2
+      exact mem_aft_of_lt (f := fun a => (L.key a).ok) g.sorted hv.1 hx hlt
+    · exact ⟨trivial, by simp [LSt.apply, TInv, Th.finish], by simp [ResOk], by simp [LSt.apply, addLog, succNode]⟩
 
 
 theorem step_search {rule} {L : LSt} {t : Tid} {th : Th} (g : Good rule L) (hpc : th.pc = .search)
@@ -372,7 +360,7 @@ theorem step_twalk {rule} {L : LSt} {t : Tid} {th : Th} (g : Good rule L) (hpc :
         · exact Or.inl (by simp [h2])
         · right; rw [aft_step g.nodup hr]; exact h2
 
-theorem step_ok {rule} {L : LSt} {t : Tid} {th : Th} (g : Good rule L) (h : TInv rule L t th) :
+theorem step_ok {rule} {L : LSt} {t : Tid} {th : Th} (g : Good rule L) (hcg : Contig rule L) (h : TInv rule L t th) :
     StepOk rule L t (thStep rule L t th) := by
   unfold TInv at h
   cases hpc : th.pc <;> simp only [hpc] at h
@@ -382,6 +370,9 @@ theorem step_ok {rule} {L : LSt} {t : Tid} {th : Th} (g : Good rule L) (h : TInv
   · exact step_cas g hpc h.1 h.2.1 h.2.2
   · exact step_fwalk g hpc h
   · exact step_twalk g hpc h
+  · exact step_cfirst g hpc h
+  · exact step_clast g hcg hpc h
+  · exact step_cdist g hcg hpc h
 
 /-! ### the system invariant -/
 
@@ -406,7 +397,7 @@ theorem inv_step (rule : Key → Rule) (s : St) (t : Tid) (h : Inv rule s) : Inv
   | none => simpa using h
   | some th =>
     simp only
-    have so := step_ok h.good (h.tinv t th hth)
+    have so := step_ok h.good h.contig (h.tinv t th hth)
     refine ⟨good_apply h.good so.act, ?_, ?_, ?_, contig_apply h.good h.contig so.act⟩
     · intro u thu hu
       simp only at hu
